@@ -162,7 +162,7 @@ func (s *vStream) ReadString(delim byte) (string, error) { panic("vStream.ReadSt
 // ---------------------------------------------------------------------------
 func VerifH03a() {
 	N := vParam("N", 4)
-	L := vParam("L", 8)
+	L := vParam("L", 8) - vChoose(3) // the limit varies too (L-2..L)
 	total := vChoose(5 + N + 1)
 	data := nondetBytes(total)
 	st := &vStream{data: data, failAt: -1, short: true}
